@@ -75,13 +75,14 @@ def bodyDepths : List Ev → List (Nat × Nat)
 example : ((run nv2Cfg 40 (.ref 0) [] 1 {}).map (fun r => bodyDepths r.2.log)) = some [(1, 5), (1, 4), (1, 3), (1, 2), (1, 1)] := by
   decide
 
-/-- the curtailment test, the context-reset test and Remaining, TRANSLATED from the Go source on every run, are the
-    model's (Generated/FactsFn.lean, Proofs/FactsTie.lean) -/
+/-- Remaining, TRANSLATED from the Go source on every run, is the model's (Generated/FactsFn.lean, Proofs/FactsTie.lean).
+    (The curtailment test of Memoize and the context-reset test of the sequence were two more conjuncts, each found by
+    the text of the `if` it stood in; they are subsumed by the translation of the whole functions — Props/C01P.lean
+    `c01_translated_core` (Memoize), `c01p_sequence_machinery` (parseNext), built and audited with this property —
+    which a restructuring of those functions does not break.) -/
 theorem c02_translated_conditions :
-    (∀ cnt rem, decide (cnt > rem + Facts.curtailSlack) = FactsFn.curtails cnt rem) ∧
-    (∀ p (n : Node), decide (n.rpos > p) = FactsFn.seqResets n.rpos p) ∧
     (∀ f pos, remaining f pos = FactsFn.remaining f.len pos f.offset) :=
-  ⟨tie_curtails, tie_seqResets, tie_remaining⟩
+  tie_remaining
 
 /- (the text facts that stood here - condition lists and statement orders of Memoize, ResultCache, Any, Choice, the Sequence
    machinery, ReturnError, SetError, Parse, re-read from the source as normalised text - are subsumed since translator v3: the
